@@ -136,6 +136,62 @@ def nat_last(x):
     return x
 
 
+def idx_boolean_na_columns(t):
+    """Columns on which pandas' own ``DataFrame.idxmin/idxmax`` is not a reference: ``boolean`` (masked) columns holding
+    NA.  ``DataFrame.idxmax`` reduces a masked block through ``BaseMaskedArray._reduce('argmax')`` ->
+    ``nanops.nanargmax(self._data, mask=...)``, and nanops does not fill masked BOOL data (``_na_ok_dtype`` is False for
+    bool), so the hidden payload under the mask takes part: ``pd.DataFrame({'d': pd.array([False, pd.NA, True],
+    dtype='boolean')}).idxmax()`` is 1 (the NA row) while ``Series.idxmax`` of the same column is 2 and the documentation
+    says NA is excluded.  dask calls the same pandas method per partition, so it inherits the artefact per partition
+    (another NA row).  Neither answer is the statistic; the entries of exactly these columns are left out of the
+    comparison (Series.idxmin/idxmax of such a column, Int64/Float64 columns and every other column stay compared)."""
+    if not isinstance(t, pd.DataFrame) or not t.columns.is_unique:
+        return []
+    return [c for c in t.columns if isinstance(t[c].dtype, pd.BooleanDtype) and bool(t[c].isna().any())]
+
+
+def zero_row_dtypes_of_empty_partition(got, want, ref_on_zero_rows):
+    """A ZERO-ROW result (e.g. ``nlargest(0)``) carries nothing but dtypes, and those are what the partition-local
+    pandas calls produced.  pandas' dtypes over zero rows differ from those over any non-empty input (``<empty str
+    column> + "!"`` is object, with one row it is str), so when some partition is empty the concatenation of the
+    zero-row pieces has the zero-row dtype (object) although the whole-frame pandas run (which saw rows before cutting
+    down to none) and the lazy meta say str.  That is the data-dependent pandas dtype of DESIGN 4.4 seen in a result
+    without rows.  Accepted only column by column, only when both results have zero rows, and only if the computed dtype
+    is exactly what pandas itself returns for the same program over the zero-row slice of the input."""
+    if not (isinstance(got, (pd.Series, pd.DataFrame)) and type(got) is type(want) and len(got) == 0 and len(want) == 0):
+        return want
+    dg, dw = D._dtypes_of(got), D._dtypes_of(want)
+    if len(dg) != len(dw) or all(a == b for a, b in zip(dg, dw)):
+        return want
+    status, z = reference(ref_on_zero_rows)
+    if status != "ok" or type(z) is not type(want) or len(D._dtypes_of(z)) != len(dw):
+        return want
+    dz = D._dtypes_of(z)
+    hit = [i for i in range(len(dw)) if dg[i] != dw[i] and dg[i] == dz[i]]
+    if not hit:
+        return want
+    count("zero-row-result-dtype-of-empty-partition")
+    if isinstance(want, pd.Series):
+        return want.astype(dg[0])
+    want = want.copy()
+    for i in hit:
+        want.isetitem(i, want.iloc[:, i].astype(dg[i]))
+    return want
+
+
+def obj_str_filter(pre, base):
+    """Signature flag only (no comparison depends on it): the preparation step is a filter whose predicate applies a
+    ``.str`` method to an OBJECT-dtype input column (input class of the open finding
+    c37-object-column-str-predicate-filter-keyerror)."""
+    if not any(o["op"] == "filter" for o in pre):
+        return False
+    for n in D.walk(pre):
+        x = n.get("x") if n.get("e") == "acc" and n.get("acc") == "str" else None
+        if isinstance(x, dict) and x.get("e") == "col" and x.get("name") in base.columns and base[x["name"]].dtype == object:
+            return True
+    return False
+
+
 def apply_red(obj, r):
     t = target_of(obj, r)
     name = r["name"]
@@ -228,6 +284,7 @@ def check(spec):
     )
     maybe_empty = case.has_empty or len(case.pdf) == 0 or any(o["op"] == "filter" for o in pre)
     sig["maybe_empty"] = maybe_empty
+    sig["obj_str_filter"] = obj_str_filter(pre, case.base)
     with warnings.catch_warnings(), np.errstate(all="ignore"):
         warnings.simplefilter("ignore")
         status, want = reference(lambda: apply_red(D.run_pipeline(case.base, pre, envp), r))
@@ -285,6 +342,15 @@ def check(spec):
     # pandas' result dtype with min_count depends on whether the threshold was reached (int -> float NaN):
     # data-dependent like the empty-partition case, same acceptance rule (dask computed what its meta says)
     data_dependent = maybe_empty or bool(kw.get("min_count"))
+    if maybe_empty:
+        want = zero_row_dtypes_of_empty_partition(got, want, lambda: apply_red(D.run_pipeline(case.base.iloc[:0], pre, envp), r))
+    if sig["fam"] == "idx" and kw.get("axis", 0) == 0 and isinstance(got, pd.Series) and isinstance(want, pd.Series):
+        skip = [c for c in idx_boolean_na_columns(tgt) if c in want.index]
+        if skip and list(got.index) == list(want.index) and want.index.is_unique:
+            count("idx-boolean-na-pandas-artefact")
+            got, want = got.drop(index=skip), want.drop(index=skip)
+            if isinstance(meta, pd.Series) and all(c in meta.index for c in skip):
+                meta = meta.drop(index=skip)
     try:
         D.compare(got, want, meta, what=what, sig=sig, maybe_empty=data_dependent)
     except Violation as v:
